@@ -102,7 +102,42 @@ def run(sid, props, tier='quick'):
         json.dump(meta, f, indent=1)
 
 
+def reconfirm(sid):
+    """Re-validate a stored seed against the current /repo HEAD (after fix commits)."""
+    d = os.path.join(VERIF, 'seeded', sid)
+    patch, demo = os.path.join(d, 'patch.diff'), os.path.join(d, 'demo.py')
+    if os.path.exists(SCRATCH):
+        sh('git -C %s worktree remove --force %s' % (REPO, SCRATCH))
+    rc, out = sh('git -C %s worktree add -q --detach %s HEAD' % (REPO, SCRATCH))
+    assert rc == 0, out
+    try:
+        rc0, _ = sh('%s %s' % (PY, demo), cwd=SCRATCH)
+        rc, out = sh('git apply %s || git apply -3 %s' % (patch, patch), cwd=SCRATCH)
+        if rc != 0:
+            print('%s STALE: patch does not apply' % sid)
+            return False
+        rc, out = sh('%s -m pytest -q -p no:cacheprovider -x 2>&1 | tail -3' % PY, cwd=SCRATCH)
+        tests_ok = ' passed' in out and 'failed' not in out
+        rc1, _ = sh('%s %s' % (PY, demo), cwd=SCRATCH)
+        ok = rc0 == 0 and tests_ok and rc1 != 0
+        print('%s %s: clean demo rc=%d, tests %s, patched demo rc=%d' % (sid, 'VALID' if ok else 'STALE', rc0,
+                                                                         'pass' if tests_ok else 'FAIL', rc1))
+        mp = os.path.join(d, 'meta.json')
+        meta = json.load(open(mp))
+        meta['revalidated_at'] = sh('git -C %s rev-parse --short HEAD' % REPO)[1].strip()
+        meta['revalidation'] = 'valid' if ok else 'stale (clean demo rc=%d, tests %s, patched demo rc=%d)' % (rc0, 'pass' if tests_ok else 'fail', rc1)
+        with open(mp, 'w') as f:
+            json.dump(meta, f, indent=1)
+        return ok
+    finally:
+        sh('git -C %s worktree remove --force %s' % (REPO, SCRATCH))
+
+
 if __name__ == '__main__':
+    if sys.argv[1] == 'reconfirm':
+        for sid in sys.argv[2:]:
+            reconfirm(sid)
+        sys.exit(0)
     if sys.argv[1] == 'confirm':
         ok = confirm(sys.argv[2], sys.argv[3], sys.argv[4])
         sys.exit(0 if ok else 1)
